@@ -336,6 +336,16 @@ fn mode_traverse(c: &Case, out: &mut String) {
             o.push(')');
         });
         out.push_str(")\n");
+        // the qualified names the library reports for the item and the package symbol (the check computes what they
+        // should be from the text: dotted package name, "package.Name")
+        traverse::walk_symbols(a, SymbolFilter::ItemsOnly, |s| {
+            let t = tag(&s);
+            if t == 0 || (2..=4).contains(&t) {
+                let q = s.get_qualified_name().unwrap_or_default();
+                let hex: String = q.bytes().map(|b| format!("{:02x}", b)).collect();
+                writeln!(out, "X {} {}:{} ok {}", c.name, if t == 0 { "pkgq" } else { "itemq" }, fr.id, hex).unwrap();
+            }
+        });
     }
 }
 
